@@ -28,6 +28,7 @@ import (
 	"sort"
 	"strconv"
 	"strings"
+	"sync"
 
 	"git.metabarcoding.org/obitools/obitools4/obitools4/pkg/obikmer"
 	"git.metabarcoding.org/obitools/obitools4/obitools4/pkg/obiseq"
@@ -279,13 +280,26 @@ func c15Strs(refs [][]byte) []string {
 	return out
 }
 
+// c15Limiter lets every assertion report its first failures only (several defects can show in one run;
+// none of them may drown the others).
+type c15Limiter struct {
+	mu sync.Mutex
+	n  map[string]int
+}
+
+func (l *c15Limiter) admit(assert string) bool {
+	l.mu.Lock()
+	defer l.mu.Unlock()
+	l.n[assert]++
+	return l.n[assert] <= 40
+}
+
 func c15Replay(env *Env) {
 	cases := loadCases[c15Case](env.cases)
+	lim := &c15Limiter{n: map[string]int{}}
 	parallel(len(cases), 0, func(ci int) {
-		if env.tooManyFailures() {
-			return
-		}
 		c := cases[ci]
+		env.ok("cases.replayed")
 		q := c15Join(c.Q)
 		refs := make([][]byte, len(c.Refs))
 		for i, r := range c.Refs {
@@ -301,6 +315,10 @@ func c15Replay(env *Env) {
 		bad := false
 		fail := func(assert, detail string) {
 			bad = true
+			if !lim.admit(assert) {
+				env.ok("suppressed." + assert)
+				return
+			}
 			env.fail(assert, cls, fmt.Sprintf("%s: query %s references %v taxa %v", detail, q, c15Strs(refs), c.Taxa), c)
 		}
 		// shared 4-mers
